@@ -216,9 +216,18 @@ class F32W(F64):
 
 def serde_job(prog, top, depth, deadline, seed=0):
     eng = Engine(prog); eng.deadline = deadline; S = Summary(); XP.init_decls(prog)
+    def hidden(ex):
+        out = {}
+        for k, c in getattr(ex, 'statics', {}).items(): out['static ' + k] = repr(c.v)[:2000]
+        for k, c in getattr(ex, 'tls', {}).items(): out['thread_local ' + k] = repr(c.v)[:2000]
+        return out
     def body(ex):
         v = gen(ex, depth, kinds=[top]); ex.u_v = v
-        return ex.call('Variable::from_serializable', [v])
+        r = ex.call('Variable::from_serializable', [v])
+        # state that outlives the conversion (statics, thread-locals) must not keep changing under identical conversions -- failed ones included
+        s1 = hidden(ex); ex.call('Variable::from_serializable', [v]); s2 = hidden(ex)
+        if s1 != s2: ex.u_drift = [k for k in s2 if s1.get(k) != s2.get(k)][:3]
+        return r
     def on_path(ex, r):
         S['paths'] += 1; S['outcomes'][r[0]] += 1
         if r[0] == 'abort': return
@@ -227,6 +236,9 @@ def serde_job(prog, top, depth, deadline, seed=0):
         if not sat: return
         want = image(ex, ex.u_v, m)
         desc = repr(ex.u_v)[:300]
+        if getattr(ex, 'u_drift', None):
+            S.cand('c14:hidden-state-drifts', f'state that outlives the conversion keeps changing under identical conversions of a {top}: {ex.u_drift}', {'value': desc},
+                   {'op': 'serde_repeat', 'value': dm_json(ex, ex.u_v, m), 'n': 2000}, expected='the conversion after 2000 identical ones behaves like the first'); return
         if r[0] == 'panic': S.cand('c05:serialize-panic', f'from_serializable panics: {r[1]}', {'value': desc}, {'op': 'none'}, expected='no panic'); return
         out = r[1]
         if has_err(want):
